@@ -73,7 +73,7 @@ pub struct Limits {
 }
 impl Limits {
     pub fn new(max_depth: usize, max_states: usize, wall_s: f64) -> Self {
-        Limits { max_depth, max_states, wall_s, rss_mb: 40_000 }
+        Limits { max_depth, max_states, wall_s, rss_mb: 20_000 }
     }
 }
 
